@@ -28,6 +28,8 @@ func (f fault) String() string {
 		return fmt.Sprintf("fsize=%d", f.FSize)
 	case "input":
 		return fmt.Sprintf("input:%s@%d", f.Input, f.Target)
+	case "signal":
+		return fmt.Sprintf("signal:%s:%s:when=%d", f.Syscall, f.Errno, f.When)
 	case "dir-inject":
 		return fmt.Sprintf("dir-inject:%s:%s:variant=%d", f.Syscall, f.Errno, f.Target)
 	case "stdout-fsize":
@@ -46,7 +48,7 @@ var (
 	c16Errnos      = []string{"EIO", "ENOSPC", "EACCES", "EDQUOT"}
 	c16Global      = []string{"write", "pwrite64", "close", "fsync", "rename", "renameat", "renameat2", "fchmod", "fchmodat", "chmod", "ftruncate", "unlinkat", "fstat", "newfstatat", "fchown", "linkat"}
 	c16PathSys     = []string{"openat", "read"}
-	c16Inputs      = []string{"unparseable-then-unreadable", "patch-list-is-a-directory", "patch-list-line-too-long", "missing-path-first", "missing-dir-first", "two-missing-paths", "unparseable-source", "unparseable-result", "rewrite-error", "missing-path", "missing-patch", "malformed-patch", "missing-list-entry", "unreadable-source", "unreadable-patch", "directory-named-go", "rewrite-error-plus-other-change"}
+	c16Inputs      = []string{"p-and-missing-list", "p-and-list-with-missing-entry", "unparseable-then-unreadable", "patch-list-is-a-directory", "patch-list-line-too-long", "missing-path-first", "missing-dir-first", "two-missing-paths", "unparseable-source", "unparseable-result", "rewrite-error", "missing-path", "missing-patch", "malformed-patch", "missing-list-entry", "unreadable-source", "unreadable-patch", "directory-named-go", "rewrite-error-plus-other-change"}
 	c16ErrnoText   = map[string]string{"EIO": "input/output error", "ENOSPC": "no space left on device", "EACCES": "permission denied", "EDQUOT": "disk quota exceeded", "EFBIG": "file too large"}
 	c16FaultsCache = map[string][]fault{}
 )
@@ -94,6 +96,14 @@ func c16Faults(tier string) []fault {
 	for w := 1; w <= 3; w++ {
 		for t := 0; t < 4; t++ {
 			out = append(out, fault{Kind: "kill-path", Syscall: "openat", When: w, Target: t})
+		}
+	}
+	// a signal that can be caught (Ctrl-C, a CI timeout): an interrupted run must not look like a complete one
+	for _, sig := range []string{"SIGTERM", "SIGINT"} {
+		for _, sc := range []string{"openat", "write", "rename", "renameat"} {
+			for w := 1; w <= maxWhen+6; w += 2 {
+				out = append(out, fault{Kind: "signal", Syscall: sc, Errno: sig, When: w})
+			}
 		}
 	}
 	// double faults: the first fault sends gopatch down an error path, the second one hits whatever that path does.
@@ -403,6 +413,7 @@ func runC16(ctx *core.Ctx, idx int) *core.Result {
 	alsoNamed := []string{} // further paths stderr has to name
 	patchArgs := []string{"-p", "../p.patch"}
 	expectFailFile := "" // file that must be reported
+	nothingPatched := false // the patches cannot all be loaded: nothing may change
 	causeWords := []string{}
 	switch ft.Kind {
 	case "input":
@@ -449,6 +460,18 @@ func runC16(ctx *core.Ctx, idx int) *core.Result {
 		case "patch-list-line-too-long":
 			patchArgs = []string{"-P", "../biglist.txt"}
 			expectFailFile, causeWords = "biglist.txt", []string{"too long"}
+		case "p-and-missing-list":
+			// a good -p patch next to a -P list that does not exist: the list is still asked for
+			patchArgs = []string{"-p", "../p.patch", "-P", "../nolist.txt"}
+			expectFailFile, causeWords = "nolist.txt", []string{"no such file"}
+			for i := range files {
+				_ = i
+			}
+			nothingPatched = true
+		case "p-and-list-with-missing-entry":
+			patchArgs = []string{"-p", "../p.patch", "-P", "../list.txt"}
+			expectFailFile, causeWords = "gone.patch", []string{"no such file"}
+			nothingPatched = true
 		case "missing-list-entry":
 			patchArgs = []string{"-P", "../list.txt"}
 			expectFailFile, causeWords = "gone.patch", []string{"no such file"}
@@ -517,7 +540,7 @@ func runC16(ctx *core.Ctx, idx int) *core.Result {
 			patched[f.name] = f.src // an input-corrupted file must be left exactly as it is
 		}
 	}
-	if ft.Input == "patch-list-is-a-directory" || ft.Input == "patch-list-line-too-long" {
+	if ft.Input == "patch-list-is-a-directory" || ft.Input == "patch-list-line-too-long" || nothingPatched {
 		for _, f := range files {
 			patched[f.name] = f.src // the patches could not be loaded: nothing may change
 		}
@@ -584,6 +607,9 @@ func runC16(ctx *core.Ctx, idx int) *core.Result {
 	case "kill-path":
 		cr, _, raw = ctx.RunCLIStrace(opts, "-P", filepath.Join(tree, files[tgt].name), "-e", fmt.Sprintf("inject=%s:signal=SIGKILL:when=%d", ft.Syscall, ft.When))
 		fired = cr.Exit == -1 || strings.Contains(raw, "SIGKILL")
+	case "signal":
+		cr, _, raw = ctx.RunCLIStrace(opts, "-e", fmt.Sprintf("inject=%s:signal=%s:when=%d", ft.Syscall, ft.Errno, ft.When))
+		fired = strings.Contains(raw, "--- "+ft.Errno)
 	}
 	res.Evals++
 	if fired {
@@ -596,7 +622,7 @@ func runC16(ctx *core.Ctx, idx int) *core.Result {
 	for _, f := range files {
 		rep["tree/"+f.name] = f.src
 	}
-	killed := cr.Exit == -1 && strings.Contains(cr.Signal, "killed")
+	killed := cr.Exit == -1 && (strings.Contains(cr.Signal, "killed") || ft.Kind == "signal")
 	if cc := cr.CrashClass(); cc != "" && !killed && !(strings.Contains(ft.Kind, "fsize") && strings.Contains(cc, "file size")) {
 		res.Violate("C16/"+cc, stderr, rep)
 		return res
